@@ -62,7 +62,7 @@ def run_one(prop: str, seed: int, tier: str, cap: int) -> dict:
         if not cfg.get("ops"):     # C12: the history is a fixed protocol parameterised by the configuration
             out["sample"] = {"seed": seed, "spec": cfg.get("spec"),
                              "configuration": {k: cfg.get(k) for k in ("deferred", "params", "rot_params", "chunks", "sched",
-                                                                      "handles", "handle_timing", "fault_compute", "fault_fit", "s1", "compute_twice")},
+                                                                      "handles", "handle_timing", "fault_compute", "fault_fit", "rot_refit_fault", "s1", "compute_twice")},
                              "protocol": [l for l in res.log if l.startswith("op ")][:20],
                              "interleaving_digests": res.coverage.get("interleavings", [])[:4]}
         if res.violations:
